@@ -69,6 +69,8 @@ pub struct Judge<'a> {
 pub struct Laws1 {
     pub deg: BTreeMap<String, i32>,
     pub safe: BTreeMap<String, String>,
+    /// translation of the origin (Laws1.tla TransLaw / TransReplay): "plus", "same" or "no"
+    pub trans: BTreeMap<String, String>,
 }
 impl Laws1 {
     pub fn load(path: &str) -> Laws1 {
@@ -79,6 +81,7 @@ impl Laws1 {
                 return Laws1 {
                     deg: deg.iter().map(|(k, d)| (k.clone(), d.as_i64().unwrap() as i32)).collect(),
                     safe: safe.iter().map(|(k, d)| (k.clone(), d.as_str().unwrap_or("all").to_string())).collect(),
+                    trans: v["trans"].as_object().map(|t| t.iter().map(|(k, d)| (k.clone(), d.as_str().unwrap_or("no").to_string())).collect()).unwrap_or_default(),
                 };
             }
         }
@@ -103,6 +106,9 @@ pub const U_F64_BIG: f64 = 123467.8;
 pub const U_F64_SMALL: f64 = 1.3e-4;
 pub const U_F32_BIG: f64 = 1234.5;
 pub const U_F32_SMALL: f64 = 3.0 / 1024.0;
+/// 2^24/3: every product with |v| <= 3 is exact in f32 (24 bits), but a sum of two is not - an
+/// accumulator kept in f32 loses what the f64 accumulators of the kernels keep
+pub const U_F32_EDGE: f64 = 5_592_405.0;
 pub const U_I32_BIG: f64 = 400_000_000.0;
 pub const U_I64_BIG: f64 = 1_500_000_000_000_000_000.0;
 
@@ -246,6 +252,38 @@ pub fn replay_beh(b: &Beh, kernels: &[String], j: &mut Judge, full: bool, laws: 
                     }
                 }};
             }
+            // ---- the same series at a far origin (Laws1.tla TransLaw): extrema move with it, their
+            // positions, the ranks and the min-max normalisation do not
+            if let Some(tr) = l.trans.get(*k).filter(|t| t.as_str() != "no") {
+                let plus = tr == "plus";
+                let moved = |b: i64| -> Vec<Exp> {
+                    exps.iter().map(|e| match e {
+                        Exp::Int(v) if plus => Exp::Int(*v + b),
+                        Exp::Q(n, d) if plus => Exp::Q(*n + b * *d, *d),
+                        other => other.clone(),
+                    }).collect()
+                };
+                macro_rules! ostar {
+                    ($T:ty, $U:ty, $b:expr, $enc:expr) => {{
+                        let v: Vec<$T> = xs.iter().map($enc).collect();
+                        let got = run_valid::<$T, _, $U, Vec<$U>>(k, &v, w, mp, false);
+                        let cell = format!("Vec<{}>->Vec<{}>/ret@origin=2^{}", <$T as InElem>::NAME, <$U as OutElem>::NAME, ($b as f64).log2() as i64);
+                        j.compare(fname, &key, &cell, &got, &moved($b), case);
+                    }};
+                }
+                const B52: i64 = 1 << 52;
+                const B30: i64 = 1 << 30;
+                const B60: i64 = 1 << 60;
+                ostar!(f64, f64, B52, |x: &i64| if *x == NULL { f64::NAN } else { (*x + B52) as f64 });
+                ostar!(Option<i32>, f64, B30, |x: &i64| if *x == NULL { None } else { Some((*x + B30) as i32) });
+                if !plus {
+                    // positions, ranks and ratios only: an f64 output cannot hold 2^60 + v
+                    ostar!(Option<i64>, f64, B60, |x: &i64| if *x == NULL { None } else { Some(*x + B60) });
+                    if nullfree {
+                        ostar!(i64, Option<f64>, B60, |x: &i64| *x + B60);
+                    }
+                }
+            }
             // a sum is accumulated in the element type by design: an integer series in a unit
             // that makes window sums leave the type is outside what ts_vsum can represent
             let int_ok = *k != "sum";
@@ -255,6 +293,8 @@ pub fn replay_beh(b: &Beh, kernels: &[String], j: &mut Judge, full: bool, laws: 
             ustar!(Option<f64>, f64, U_F64_SMALL, false);
             ustar!(f32, f64, U_F32_BIG, false);
             ustar!(f32, f64, U_F32_SMALL, false);
+            ustar!(f32, f64, U_F32_EDGE, false);
+            ustar!(Option<f32>, Option<f64>, U_F32_EDGE, true);
             if int_ok {
                 ustar!(Option<i32>, f64, U_I32_BIG, false);
                 ustar!(Option<i64>, f64, U_I64_BIG, false);
@@ -383,6 +423,7 @@ pub fn replay_beh(b: &Beh, kernels: &[String], j: &mut Judge, full: bool, laws: 
                 upstar!(f64, f64, U_F64_BIG);
                 upstar!(f64, f64, U_F64_SMALL);
                 upstar!(f32, f64, U_F32_BIG);
+                upstar!(f32, f64, U_F32_EDGE);
                 if *k != "sum" {
                     upstar!(i32, f64, U_I32_BIG);
                     upstar!(i64, f64, U_I64_BIG);
